@@ -326,6 +326,13 @@ class Ctx:
         if shrink:
             phases.append(Phase.shrink)
         ctx = self
+        # Hypothesis always generates the minimal example first.  When a
+        # sub-check can only afford a handful of cases per shard, every shard
+        # would spend one of them on the same minimal case: skip it there.
+        skip_first = n <= 8
+        state = {"calls": 0}
+        if skip_first:
+            n = n + 1
 
         @hypothesis.seed(self.hseed(name))
         @settings(
@@ -340,6 +347,10 @@ class Ctx:
         )
         @given(strategy)
         def test(case):
+            state["calls"] += 1
+            if skip_first and state["calls"] == 1:
+                ctx.count("minimal_first_example_skipped")
+                return
             if time.time() > ctx.deadline:
                 ctx.skipped_budget += 1
                 return
